@@ -152,8 +152,22 @@ def _is_sequence_value(v) -> bool:
         return v[1] == "list"
     if k in ("nary", "bin") and v[1] == "*":
         return any(isinstance(x, tuple) and x and _is_sequence_value(x) for x in (v[2] if k == "nary" else v[2:]))
-    if k == "call" and v[1] in (("g", "list"), ("g", "bytearray"), ("g", "array")):
+    if k == "call" and v[1] in (("g", "list"), ("g", "bytearray"), ("g", "array"), ("g", "bytes")):
         return True
+    if k == "pack" or (k == "call" and v[1][0] == "m" and v[1][2] in ("tobytes", "getvalue", "encode", "pack", "tolist")):
+        return True
+    if k == "bin" and v[1] == "+":
+        return _is_sequence_value(v[2]) or _is_sequence_value(v[3])
+    return False
+
+
+def _is_bytes_value(v) -> bool:
+    """v is certainly an immutable bytes value (`x += v` then rebinds x, it extends nothing in place)"""
+    k = v[0]
+    if k == "pack" or (k == "call" and (v[1] == ("g", "bytes") or (v[1][0] == "m" and v[1][2] in ("tobytes", "getvalue", "encode", "pack")))):
+        return True
+    if k == "bin" and v[1] == "+":
+        return _is_bytes_value(v[2]) or _is_bytes_value(v[3])
     return False
 
 
@@ -457,7 +471,7 @@ class Walker:
         for s, cur in self.ev(load, st):
             for s2, v in self.ev(n.value, s):
                 val = self.mk_bin(op, cur, v)
-                if op == "+" and _is_sequence_value(v) and cur[0] not in ("c", "lst", "tup"):
+                if op == "+" and _is_sequence_value(v) and not _is_bytes_value(v) and cur[0] not in ("c", "lst", "tup", "pack"):
                     # `x += <sequence>`: x is a sequence too, and list / array / bytearray extend IN PLACE - whatever x aliases changes
                     self.emit(s2, "call", n, name="__iadd__", target=None, recv=cur, args=[v], kwargs={}, inlined=False, mutates=True, result=cur)
                     self.bump(s2, cur)
@@ -1088,6 +1102,8 @@ class Walker:
             return cont[1][idx[1]]
         if cont[0] == "unpall" and is_const(idx) and isinstance(idx[1], int):
             return ("unp", cont[1], idx[1], cont[2])
+        if cont[0] == "it" and cont[2][0] == "iterunp" and is_const(idx) and isinstance(idx[1], int):
+            return ("unp", cont[2][1], idx[1], ("chunk", cont[2][2], cont[1]))  # for a, b in S.iter_unpack(buf)
         if cont[0] == "comp" and cont[1] == "list" and len(cont[3]) == 1 and not cont[3][0][3] and cont[2][0] == "new":
             return cont[2]  # any element of a list of freshly constructed objects is that (abstract) object
         if idx == C(-1):
@@ -1355,6 +1371,8 @@ class Walker:
                     v = ("pack", recv[1], tuple(args))
                 elif name in ("unpack", "unpack_from"):
                     v = ("unpall", recv[1], self._unpack_source(name, recv[1], args, kwargs))
+                elif name == "iter_unpack" and len(args) == 1:
+                    v = ("iterunp", recv[1], args[0], site)  # consecutive records of the buffer, one per next() / iteration
                 else:
                     v = ("call", ("m", recv, name), tuple(args), ())
                 return [(st, v)]
@@ -1395,6 +1413,9 @@ class Walker:
                 return [(st, ("unpall", args[0][1], self._unpack_source(name, args[0][1], args[1:], kwargs)))]
             if name == "pack" and k == "ext" and fn[1] == "struct" and args and is_const(args[0]):
                 return [(st, ("pack", args[0][1], tuple(args[1:])))]
+            if name == "next" and k == "g" and args and args[0][0] == "iterunp":
+                # the next record of a struct.iter_unpack walk: some chunk of the buffer, all of its slots read from the same chunk
+                return [(st, ("unpall", args[0][1], ("chunk", args[0][2], site)))]
             if name == "list" and k == "g" and not args:
                 return [(st, ("newb", "list", site, ()))]
             if name == "dict" and k == "g" and not args:
@@ -1594,6 +1615,20 @@ class Walker:
             pnames = pnames[1:]
         bound = {}
         extra = []
+        # f(*xs): a literal sequence is spread; any other sequence fills the parameters that have no default, position by position
+        # (xs[0], xs[1], ... - what `a, b, c = xs` would bind)
+        spread = []
+        for v in args:
+            if v[0] == "star" and v[1][0] in ("tup", "lst"):
+                spread.extend(v[1][1])
+            else:
+                spread.append(v)
+        args = spread
+        stars = [v for v in args if v[0] == "star"]
+        if len(stars) == 1 and args[-1] is stars[0] and not a.vararg:
+            lead = len(args) - 1
+            need = [pn for pn in pnames[lead:] if pn not in kwargs and f.defaults.get(pn) is None]
+            args = args[:-1] + [("sub", stars[0][1], C(i), self.epoch(st, stars[0][1])) for i in range(len(need))]
         for i, v in enumerate(args):
             if v[0] == "star":
                 extra.append(v)
